@@ -396,7 +396,7 @@ class ReqResp(Contract):
         sent = s.sent()
         outcomes = [e for e in s.ev if e[0] in ("reply", "noreply")]
         silent = len([e for e in outcomes if e[0] == "noreply"])
-        req_ok = lambda fr: And(compare("==", fr[1], p["rx"]), S.eq(fr[2], p["req"]), fr[3] is False)
+        req_ok = lambda fr: And(compare("==", fr[1], p["rx"]), S.eq(fr[2], p["req"]), S.is_false(fr[3]))
         if outcomes and outcomes[-1][0] == "reply":
             R = outcomes[-1][1]
             n_req = len(outcomes)
@@ -452,7 +452,7 @@ class Upload(Contract):
         if len(opened) != 1:
             return False
         o = opened[0]
-        op = And(S.eq(o[1], p["index"]), S.eq(o[2], p["sub"]), "r" in o[3] and "b" in o[3], o[6] is False)
+        op = And(S.eq(o[1], p["index"]), S.eq(o[2], p["sub"]), "r" in o[3] and "b" in o[3], S.is_false(o[6]))
         D, rs, t = p["D"], p["rs"], p["tcase"]
         if t is None or not t[3]:
             return And(op, S.same_bytes(s.ret, D))
@@ -492,7 +492,7 @@ class Download(Contract):
             return False
         o = opened[0]
         return And(S.eq(o[1], p["index"]), S.eq(o[2], p["sub"]), "w" in o[3] and "b" in o[3], S.eq(o[5], S.blen(p["data"])),
-                   o[6] is False, Iff(o[7], p["force"]), S.same_bytes(writes[0][1], p["data"]),
+                   S.is_false(o[6]), Iff(o[7], p["force"]), S.same_bytes(writes[0][1], p["data"]),
                    [e[0] for e in s.ev] == ["open", "fp.write", "fp.close"])
 
     ensures = {"open-args_and_exact-write": lambda s: Download.ok(s)}
